@@ -220,6 +220,54 @@ func c11(repo string, out *fg.Out) error {
 		}
 	}
 
+	// callees of a function body (selector or identifier names)
+	callees := func(fd *ast.FuncDecl) map[string]bool {
+		m := map[string]bool{}
+		ast.Inspect(fd.Body, func(x ast.Node) bool {
+			if c, ok := x.(*ast.CallExpr); ok {
+				m[fg.CalleeName(c)] = true
+			}
+			return true
+		})
+		return m
+	}
+	extra := func(got map[string]bool, allowed ...string) []string {
+		al := map[string]bool{}
+		for _, a := range allowed {
+			al[a] = true
+		}
+		var out []string
+		for k := range got {
+			if !al[k] {
+				out = append(out, k)
+			}
+		}
+		return out
+	}
+	// --- MAX(time) is computed by ONE aggregate over the whole file: getFileMaxTimeAndRowCount issues
+	// exactly the scan query and nothing else can answer instead of it.
+	qx := extra(callees(q), "DB", "ReplaceAll", "Sprintf", "QueryRowContext", "Scan", "UTC")
+	wholeFile := len(qx) == 0 && strings.Count(qb, "QueryRowContext(") == 1 && strings.Count(qb, "return ") == 2
+	// --- a run never consults earlier execution records: ExecutePolicy / handleExecute call only the
+	// known helpers and never read policy.LastExecution*.
+	execIndep := true
+	execWhy := ""
+	common := []string{"Now", "UTC", "AddDate", "Info", "Str", "Strs", "Time", "Bool", "Msg", "Err", "Error", "Int64", "Int", "Float64",
+		"getPolicy", "getMeasurementsToProcess", "recordExecutionStart", "recordExecutionComplete", "deleteOldFiles", "Sprintf", "Errorf",
+		"Since", "Milliseconds", "float64", "int64", "ClearHTTPCache", "freeOSMemoryThrottled", "Format", "Context"}
+	for fn, more := range map[string][]string{
+		"ExecutePolicy": {"CanUseRetentionScheduler"},
+		"handleExecute": {"ParamsInt", "Status", "JSON", "BodyParser", "IsPrimaryWriter", "Role"},
+	} {
+		fd, _ := get(fn)
+		if x := extra(callees(fd), append(common, more...)...); len(x) > 0 {
+			execIndep, execWhy = false, fn+" calls "+strings.Join(x, ",")
+		}
+		if strings.Contains(f.Text(fd.Body), "LastExecution") || strings.Contains(f.Text(fd.Body), "retention_executions") {
+			execIndep, execWhy = false, fn+" reads execution records"
+		}
+	}
+
 	b := func(v bool) string {
 		if v {
 			return "true"
@@ -239,7 +287,13 @@ func c11(repo string, out *fg.Out) error {
 	fmt.Fprintf(w, "/-- which request field makes POST /:id/execute a dry run (dryRun argument of deleteOldFiles in handleExecute) -/\n")
 	fmt.Fprintf(w, "inductive DryGate | reqDryRun | notConfirm\nderiving DecidableEq, Repr\n")
 	fmt.Fprintf(w, "def dryGate : DryGate := .%s\n", dryGate)
+	fmt.Fprintf(w, "/-- getFileMaxTimeAndRowCount: a single `SELECT MAX(time), COUNT(*) FROM read_parquet(file)` over the whole file, no other source%s -/\n", map[bool]string{true: "", false: " — VIOLATED: extra calls " + strings.Join(qx, ",")}[wholeFile])
+	fmt.Fprintf(w, "def maxTimeScansWholeFile : Bool := %s\n", b(wholeFile))
+	fmt.Fprintf(w, "/-- ExecutePolicy / handleExecute never consult earlier execution records%s -/\n", map[bool]string{true: "", false: " — VIOLATED: " + execWhy}[execIndep])
+	fmt.Fprintf(w, "def runIgnoresExecutionRecords : Bool := %s\n", b(execIndep))
 	fmt.Fprintf(w, "end Arc.Generated.C11\n")
+	out.JSON["max_time_scans_whole_file"] = wholeFile
+	out.JSON["run_ignores_execution_records"] = execIndep
 	out.JSON["dry_gate"] = dryGate
 	out.JSON["comparator"] = cmp
 	out.JSON["condition"] = conds[0]
